@@ -127,10 +127,35 @@ pub fn execute(c: &Case, tag: u64, extra_headers: &[(String, String)]) -> Outcom
         .iter()
         .map(|(n, v)| Header::from_bytes(n.as_bytes(), v.as_bytes()).unwrap())
         .collect();
-    let mut resp = Response::new(StatusCode(c.status), hdrs, reader, c.len, None);
-    if let Some(t) = c.threshold {
-        resp = resp.with_chunked_threshold(t);
-    }
+    // construction route (by the case tag): the threshold is a property of the response however it
+    // is built, so it has to survive the builder calls that follow it (boxed, with_data,
+    // with_status_code, with_header) and can be set after boxing as well
+    let route = (tag >> 9) % 6;
+    let resp: tiny_http::ResponseBox = match (route, c.threshold) {
+        (1, Some(t)) => Response::new(StatusCode(c.status), hdrs, reader, c.len, None).with_chunked_threshold(t).boxed(),
+        (2, Some(t)) => Response::new(StatusCode(c.status), hdrs, reader, c.len, None).boxed().with_chunked_threshold(t),
+        (3, Some(t)) => Response::new(StatusCode(599), hdrs, std::io::empty(), Some(0), None)
+            .with_chunked_threshold(t)
+            .with_status_code(c.status)
+            .with_data(reader, c.len)
+            .boxed(),
+        (4, Some(t)) => Response::new(StatusCode(598), hdrs, reader, c.len, None)
+            .with_chunked_threshold(t)
+            .boxed()
+            .with_status_code(c.status)
+            .boxed(),
+        _ => {
+            let mut r = Response::new(StatusCode(c.status), hdrs, reader, c.len, None);
+            if let Some(t) = c.threshold {
+                r = r.with_chunked_threshold(t);
+            }
+            return finish_print(r, c);
+        }
+    };
+    finish_print(resp, c)
+}
+
+fn finish_print<R: Read>(resp: Response<R>, c: &Case) -> Outcome {
     let mut rq_headers = Vec::new();
     // an unrelated header before and after, so that "first TE header" is really searched for
     rq_headers.push(Header::from_bytes(&b"Host"[..], &b"x"[..]).unwrap());
